@@ -324,6 +324,21 @@ class Interp:
                     val = a2[1] if len(a2) > 1 else k2.get("data")
                     if wd is not None and val is not None:
                         return Str(node=call, width=self.ev(wd), value=self.ev(val))
+            # stream.write(<codec>.write(v)) / .pad(n) / BTSDate.write(d): what <codec>.bwrite / bpad / BTSDate.bwrite do (their definitions,
+            # checked by the primitive-codec / date-codec rules)
+            if f.attr == "write" and len(args) == 1 and isinstance(args[0], ast.Call) and isinstance(args[0].func, ast.Attribute) and isinstance(args[0].func.value, ast.Name) \
+                    and args[0].func.value.id not in self.env and args[0].func.attr in ("write", "pad"):
+                inner = args[0]
+                cod = self.prog.codec(self.m, inner.func.value.id)
+                if cod is not None:
+                    cid, dt = cod
+                    if inner.func.attr == "write" and len(inner.args) == 1 and not inner.keywords:
+                        return Field(node=call, codec=cid, dt=dt, role="data", value=self.ev(inner.args[0]))
+                    if inner.func.attr == "pad" and len(inner.args) <= 1 and not inner.keywords:
+                        return Field(node=call, codec=cid, dt=dt, role="pad", count=self.ev(inner.args[0]) if inner.args else C(1))
+                r = self.prog.resolve(self.m, inner.func.value.id)
+                if r and r[0] == "class" and r[1].name == "BTSDate" and inner.func.attr == "write" and len(inner.args) == 1:
+                    return Date(node=call, value=self.ev(inner.args[0]))
             if f.attr == "write" and len(args) == 1:
                 return Raw(node=call, op="write", nbytes=self.bytes_len(args[0]), value=self.ev(args[0]))
             if f.attr == "read":
@@ -350,6 +365,17 @@ class Interp:
                     val = args[1] if len(args) == 2 else kw.get("data")
                     if val is None or len(args) > 2:
                         self.err(call, "bwrite arity")
+                    # RECORD.bwrite(stream, [(e1, e2) for v in COLL]) writes, for every v in order, the fields e1, e2 of one record:
+                    # the same bytes as a loop of the per-field writes
+                    rv = self.ev(val)
+                    if isinstance(rv, ast.Call) and norm(rv.func) in ("np.array", "np.asarray", "numpy.array", "numpy.asarray") and rv.args \
+                            and all(k.arg == "dtype" and norm(k.value) == f"{f.value.id}.btype" for k in rv.keywords):
+                        rv = rv.args[0]     # np.array(rows, dtype=RECORD.btype): the rows themselves
+                    if dt.kind == "V" and isinstance(rv, (ast.ListComp, ast.GeneratorExp)) and len(rv.generators) == 1 and not rv.generators[0].ifs \
+                            and isinstance(rv.elt, ast.Tuple) and len(rv.elt.elts) == len(dt.fields) and all(d.kind != "V" for _, d in dt.fields):
+                        g = rv.generators[0]
+                        body = [Field(node=call, codec=f"{cid}.{nm}", dt=d, role="data", value=e) for (nm, d), e in zip(dt.fields, rv.elt.elts)]
+                        return self.make_rep(g.target, g.iter, body, call)
                     return Field(node=call, codec=cid, dt=dt, role="data", value=self.ev(val))
                 if f.attr == "bread":
                     n = args[1] if len(args) > 1 else kw.get("n")
